@@ -375,16 +375,16 @@ def ordering(ctx, facts):
             ctx.ok('C12.f', 'FPNum.compare:%s' % label, 'every feasible path returns %d' % expect)
 
 
-def operand_purity(ctx, facts):
+def operand_purity(ctx, facts, rule='C12.i', classes=('FPNum', 'FixedPoint'), floor=15):
     """C12.i: the value-returning operations of FPNum / FixedPoint are observers of their operands.  A method that returns a value must not store into, or call a
     mutating method on, anything that may alias `self` or a parameter; it works on copies (constructor call, copy(), result of another value-returning method).
     Mutators = methods that store into self.* or call a mutator on self (fix-point).  Aliasing is flow-insensitive: a local is an alias as soon as one
     assignment binds it to self / a parameter / another alias."""
     n = 0
-    for cname in ('FPNum', 'FixedPoint'):
+    for cname in classes:
         c = facts.cls(cname, HELPER, required=False)
         if c is None:
-            ctx.error('C12.i', 'anchor class %s not found' % cname)
+            ctx.error(rule, 'anchor class %s not found' % cname)
             continue
         mut = set()
         changed = True
@@ -437,11 +437,11 @@ def operand_purity(ctx, facts):
                     break
             key = '%s.%s' % (cname, mn)
             if bad:
-                ctx.violation('C12.i', key, '%s() returns a value but %s: the operand denotes / converts differently after the operation' % (key, bad), '%s:%s' % (HELPER, key),
+                ctx.violation(rule, key, '%s() returns a value but %s: the operand denotes / converts differently after the operation' % (key, bad), '%s:%s' % (HELPER, key),
                               witness=dict(history='x = %s(...); y = x.%s(other); x.components() / x.convert(..) before and after differ' % (cname, mn)))
             else:
-                ctx.ok('C12.i', key, 'works on copies: no store into / mutating call on self, a parameter or an alias of them')
-    ctx.floor('C12.i', 'value-returning operations analysed', n, 15)
+                ctx.ok(rule, key, 'works on copies: no store into / mutating call on self, a parameter or an alias of them')
+    ctx.floor(rule, 'value-returning operations analysed', n, floor)
 
 
 def float_ranges(ctx, facts):
